@@ -482,18 +482,10 @@ Example composition_hypotheses_on_w0 :
 Proof. split; [vm_compute; reflexivity|]. eexists. split; vm_compute; reflexivity. Qed.
 
 (* ------------------------------------------------------------------------------------------------------------ *)
-(* the side conditions that are findings                                                                         *)
+(* the side conditions that are findings, and the repaired ones                                                   *)
 (* ------------------------------------------------------------------------------------------------------------ *)
-(* F11: a name bound to another module's __all__ and imported again from the intermediate module *)
-Definition renamed_all_source (body : list stmt) : bool :=
-  existsb (fun s => existsb (fun it => match it with
-                                       | IRef l false => existsb (fun b => may_bind l b && match b with
-                                                                                          | SFrom _ _ x _ _ => negb (String.eqb x "__all__")
-                                                                                          | _ => false
-                                                                                          end) body
-                                       | _ => false
-                                       end) (items_of s)) body.
-
+(* former finding F11 (repaired): a name bound to another module's __all__ and imported again from the intermediate module is
+   followed to the module that owns the list; the program now satisfies the hypotheses of the composition theorem *)
 Definition w11 : list modsrc :=
   [mkSrc ["wf11"] true ["a"; "b"; "c"] [];
    mkSrc ["wf11"; "a"] false [] [SSetAll 1 [IStr "f"]; SDef 2 "f" KFunc];
@@ -502,17 +494,17 @@ Definition w11 : list modsrc :=
                                  SSetAll 3 [IRef "a1" false; IStr "h"]; SDef 4 "h" KFunc]].
 Definition o11 : list path := [["wf11"]; ["wf11"; "a"]; ["wf11"; "b"]; ["wf11"; "c"]].
 
-Lemma renamed_all_source_refuted :
-  exists top ms order,
-    is_ok (py_import ms order []) = true /\
-    agreeb top (loaded_table (griffe_load top ms)) (py_table (py_import ms order [])) = false /\
-    agreeb top (griffe_sched top ms order) (py_table (py_import ms order [])) = false /\
-    wf_prog top ms order = false /\
-    (exists m, In m ms /\ renamed_all_source (ms_body m) = true).
-Proof.
-  exists "wf11", w11, o11. split; [vm_compute; reflexivity|]. split; [vm_compute; reflexivity|]. split; [vm_compute; reflexivity|].
-  split; [vm_compute; reflexivity|]. eexists. split; [right; right; right; left; reflexivity|vm_compute; reflexivity].
-Qed.
+Example renamed_all_source_repaired :
+  is_ok (py_import w11 o11 []) = true /\
+  agreeb "wf11" (loaded_table (griffe_load "wf11" w11)) (py_table (py_import w11 o11 [])) = true /\
+  agreeb "wf11" (griffe_sched "wf11" w11 o11) (py_table (py_import w11 o11 [])) = true /\
+  wf_prog "wf11" w11 o11 = true /\ wf_run w11 (py_table (py_import w11 o11 [])) = true.
+Proof. repeat split; vm_compute; reflexivity. Qed.
+
+(* __all__.extend(...) (former finding F6) is inside the composition theorem as well *)
+Example extend_inside_the_theorem :
+  wf_prog "wf6" w6 o6 = true /\ wf_run w6 (py_table (py_import w6 o6 [])) = true.
+Proof. split; vm_compute; reflexivity. Qed.
 
 (* F12: the name an __all__ is assembled from is rebound by a wildcard import between its import and the __all__ statement *)
 Definition w12 : list modsrc :=
